@@ -319,6 +319,10 @@ pub struct Tick(pub u8);
 impl Default for Tick { fn default() -> Tick { TICKS.with(|c| c.set(c.get() + 1)); Tick(0) } }
 impl Tick { pub fn default() -> Tick { Tick(99) } }
 pub fn take_ticks() -> usize { TICKS.with(|c| c.replace(0)) }
+/// a type argument WITHOUT Default (and without Clone): generated impls may only ask of a type parameter what the payloads need
+#[derive(Debug, PartialEq)]
+pub struct NoDef;
+impl<T> FObs for std::marker::PhantomData<T> { fn fobs(&self) -> String { "d".to_string() } }
 /// a payload that has NO usable default (it panics): values of the variants before it can still be produced
 #[derive(Debug, Clone, PartialEq)]
 pub struct Boom;
